@@ -176,7 +176,10 @@ HelpLines(s, chain, width0, pre) ==
                             (IF cd.desc # E THEN Spaces(MaxNameLen(s, subs) - LenW(cd.name)) \o Spaces(2) \o cd.desc
                                                  \o (IF cd.aliases # <<>> THEN <<SPACE, 40, 97, 108, 105, 97, 115, 101, 115, COLON, SPACE>> \o CommaJoin(cd.aliases) \o <<41>> ELSE E)
                              ELSE E)]
-  IN <<<<85, 115, 97, 103, 101, COLON>>, UsageLine(s, chain, 0)>> \o body.lines \o cmdRows
+      \* the long description of the innermost active command, wrapped at the terminal width (help.go:404-412)
+      longDesc == s.d.cmds[inner].longDesc
+      longLines == IF longDesc = E THEN <<>> ELSE <<E>> \o WrapText(longDesc, width, E)
+  IN <<<<85, 115, 97, 103, 101, COLON>>, UsageLine(s, chain, 0)>> \o longLines \o body.lines \o cmdRows
 
 HasPanic(lines) == \E i \in 1..Len(lines) : lines[i] = PanicLine
 =============================================================================
